@@ -201,7 +201,7 @@ func TestVerifC15(t *testing.T) {
 	defer r.Finish()
 	module.RegisterInstance(c15U2E, nil)
 	module.RegisterInstance(c15Prep, nil)
-	r.Rule("entitlement tables {identity, address lists, domain entry, '*'} x prepare_email {identity, alias map} x normalisation {auto, noop} x authenticated user {entitled, other, none; case / NFD spellings} x MAIL FROM {entitled, alias, spelling variants incl. A-label, not entitled} x header layouts {single From, two addresses in one From, two From fields in both orders, group syntax, display name containing an address, RFC 2047 display name, folded field, missing From} x Sender {absent, entitled, not entitled}; thorough tier: more addresses (subdomain, suffix-confusable domains, plus-tag, upper-case alias), layouts (bare addr-spec, comments, three From fields, group followed by an address, folded lists, empty first line) and Sender shapes (display name, two Sender fields, upper-case); each through the real check.authorize_sender initialised from configuration (CheckSender + CheckBody); oracle: every acceptance is justified by the reference entitlement function (authenticated, envelope sender entitled, every address of every From field entitled or an entitled Sender present). Non-trivial: distinct accepted cases")
+	r.Rule("entitlement tables {identity, address lists, domain entry, '*'} x prepare_email {identity, alias map} x normalisation {auto, noop} x authenticated user {entitled, other, none; case / NFD spellings} x MAIL FROM {entitled, alias, spelling variants incl. A-label, not entitled, a sharp-s domain next to its ss twin} x header layouts {single From, two addresses in one From, two From fields in both orders, group syntax, display name containing an address, RFC 2047 display name, folded field, missing From} x Sender {absent, entitled, not entitled}; thorough tier: more addresses (subdomain, suffix-confusable domains, plus-tag, upper-case alias), layouts (bare addr-spec, comments, three From fields, group followed by an address, folded lists, empty first line) and Sender shapes (display name, two Sender fields, upper-case); each through the real check.authorize_sender initialised from configuration (CheckSender + CheckBody); oracle: every acceptance is justified by the reference entitlement function (authenticated, envelope sender entitled, every address of every From field entitled or an entitled Sender present). Non-trivial: distinct accepted cases")
 	if rp := r.Replay(); rp != nil {
 		var c c15Case
 		if json.Unmarshal(rp, &c) != nil {
@@ -218,13 +218,15 @@ func TestVerifC15(t *testing.T) {
 	cfgs := []c15Cfg{
 		{Name: "identity/auto", Norm: "auto"},
 		{Name: "identity/noop", Norm: "noop"},
-		{Name: "lists/auto", Norm: "auto", U2E: map[string][]string{"alice": {"alice@example.org", "alias@example.org", "renée@пример.рф"}, "bob": {"bob@example.org"}}},
+		{Name: "lists/auto", Norm: "auto", U2E: map[string][]string{"alice": {"alice@example.org", "alias@example.org", "renée@пример.рф", "info@strasse.example"}, "bob": {"bob@example.org"}}},
 		{Name: "domain/auto", Norm: "auto", U2E: map[string][]string{"alice": {"example.org"}, "root": {"*"}}},
 		{Name: "lists+prepare/auto", Norm: "auto", U2E: map[string][]string{"alice": {"alice@example.org"}}, Prep: map[string][]string{"alias@example.org": {"alice@example.org"}, "shared@example.org": {"alice@example.org", "bob@example.org"}}},
 		{Name: "lists/noop", Norm: "noop", U2E: map[string][]string{"alice": {"alice@example.org"}}},
 	}
 	users := []string{"alice", "ALICE", "alice@example.org", "Alice@EXAMPLE.org", "bob", "root", "mallory@evil.example", "", "renée@пример.рф", nfd("renée") + "@xn--e1afmkfd.xn--p1ai"}
-	addrs := []string{"alice@example.org", "ALICE@Example.ORG", "alias@example.org", "shared@example.org", "bob@example.org", "mallory@evil.example", "renée@пример.рф", nfd("renée") + "@XN--E1AFMKFD.XN--P1AI", "other@example.org", "alice@notexample.org"}
+	addrs := []string{"alice@example.org", "ALICE@Example.ORG", "alias@example.org", "shared@example.org", "bob@example.org", "mallory@evil.example", "renée@пример.рф", nfd("renée") + "@XN--E1AFMKFD.XN--P1AI", "other@example.org", "alice@notexample.org",
+		// entitled: info@strasse.example; a different IDNA2008 domain that full case folding would merge with it
+		"info@strasse.example", "info@stra\u00dfe.example", "info@XN--STRAE-OQA.example"}
 	senders := func(a string) []string {
 		return []string{"", "Sender: <alice@example.org>\r\n", "Sender: <mallory@evil.example>\r\n", "Sender: <" + a + ">\r\n"}
 	}
